@@ -139,19 +139,19 @@ class Nvl(Binary):
                     "Nvl operation at scalar level must have scalar "
                     "types on right (applicable) side"
                 )
-            cls.type_validation(left.data_type, right.data_type)
-            return Scalar(name="result", value=None, data_type=left.data_type, nullable=False)
+            result_type = cls.type_validation(left.data_type, right.data_type)
+            return Scalar(name="result", value=None, data_type=result_type, nullable=False)
         if isinstance(left, DataComponent):
             if isinstance(right, Dataset):
                 raise ValueError(
                     "Nvl operation at component level cannot have "
                     "dataset type on right (applicable) side"
                 )
-            cls.type_validation(left.data_type, right.data_type)
+            result_type = cls.type_validation(left.data_type, right.data_type)
             return DataComponent(
                 name=comp_name,
                 data=None,
-                data_type=left.data_type,
+                data_type=result_type,
                 role=Role.MEASURE,
                 nullable=False,
             )
@@ -161,12 +161,16 @@ class Nvl(Binary):
                     "Nvl operation at dataset level cannot have component "
                     "type on right (applicable) side"
                 )
+            # the result holds values of either operand: its measures take the promoted type
+            measure_types = {}
             if isinstance(right, Scalar):
                 for component in left.get_measures():
-                    cls.type_validation(component.data_type, right.data_type)
+                    measure_types[component.name] = cls.type_validation(
+                        component.data_type, right.data_type
+                    )
             if isinstance(right, Dataset):
                 for component in left.get_measures():
-                    cls.type_validation(
+                    measure_types[component.name] = cls.type_validation(
                         component.data_type, right.components[component.name].data_type
                     )
             result_components = {
@@ -176,6 +180,8 @@ class Nvl(Binary):
             }
             for comp in result_components.values():
                 comp.nullable = False
+                if comp.name in measure_types:
+                    comp.data_type = measure_types[comp.name]
         return Dataset(name=dataset_name, components=result_components, data=None)
 
 
